@@ -118,7 +118,9 @@ func main() {
 			continue
 		}
 		r := root.Fork(uint64(i))
-		if *mode == "stroke" && i%8 == 3 {
+		if *mode == "stroke" && i%32 == 13 {
+			fineStrokeCase(o, r, i)
+		} else if *mode == "stroke" && i%8 == 3 {
 			curvedStrokeCase(o, r, i)
 		} else if *mode == "stroke" && i%8 == 7 {
 			closedCurvedStrokeCase(o, r, i)
@@ -264,6 +266,70 @@ func strokeCase(o *out.W, r *rng.R, i int) {
 	o.Emit(out.Case{I: i, Fam: fam + "/" + capNames[capI] + "/" + joinNames[joinI], Coq: term, Desc: desc})
 }
 
+// fineStrokeCase: a polyline with a run of segments that are each shorter than the tolerance handed to Stroke (a half circle
+// sampled finely between two long lines), stroked thinly enough that no segment is shorter than the half width.  The tolerance
+// concerns Béziers and the optimisation of the outline, not where the path is: the stroke still has to follow the run.  With a
+// tolerance above the half width only the outer clause decides (no point farther than w/2 + tol is filled); samples along the
+// chord of the run are added, which a stroke that skipped the run would fill.
+func fineStrokeCase(o *out.W, r *rng.R, i int) {
+	tolF := rng.Pick(r, []float64{0.5, 0.25})
+	spacing := 0.6 * tolF
+	w := tolF // half width tolF/2 <= spacing
+	hw := w / 2
+	R := float64(r.Range(2, 4))
+	mF := tolF + ftol + 1.0/512
+	n := int(math.Ceil(math.Pi * R / spacing))
+	p := &canvas.Path{}
+	p.MoveTo(-6, -R)
+	p.LineTo(0, -R)
+	for k := 1; k < n; k++ {
+		a := -math.Pi/2 + math.Pi*float64(k)/float64(n)
+		// on the 2^-10 grid, so that the judge gets the vertices exactly
+		p.LineTo(math.Round(R*math.Cos(a)*1024)/1024, math.Round(R*math.Sin(a)*1024)/1024)
+	}
+	p.LineTo(0, R)
+	p.LineTo(-6, R)
+	in, ok := decodeFlat(p)
+	if !ok || len(in) != 1 || len(in[0]) < n {
+		return
+	}
+	capI := r.Intn(2)
+	joinI := r.Intn(2)
+	caps := []canvas.Capper{canvas.ButtCap, canvas.RoundCap}
+	joins := []canvas.Joiner{canvas.BevelJoin, canvas.RoundJoin}
+	desc := map[string]interface{}{"path": p.String(), "width": w, "cap": capNames[capI], "join": joinNames[joinI], "limit": 0, "tolerance": tolF}
+	res := runOp(func() *canvas.Path { return p.Copy().Stroke(w, caps[capI], joins[joinI], tolF).Flatten(ftol) })
+	if res.panic != "" || res.hang {
+		desc["panic"], desc["hang"] = res.panic, res.hang
+		o.Emit(out.Case{I: i, Fam: "fine-polyline", Coq: "", Desc: desc})
+		return
+	}
+	rc, ok := decodeFlat(res.p)
+	if !ok {
+		return
+	}
+	desc["R"] = res.p.String()
+	samples := samplesAroundM(r, in[0], false, hw, 1.001, mF)
+	u := float64(int64(1) << unitBits)
+	for y := -R + 1; y <= R-1; y += 0.5 {
+		for _, x := range []float64{0, hw / 2, -hw / 2, R / 2} {
+			samples = append(samples, ipt{int64(x * u), int64(y * u)})
+		}
+	}
+	inner := "0%Z"
+	if hw > mF {
+		inner = sq(hw - mF)
+	}
+	ss := make([]string, len(samples))
+	for k, s := range samples {
+		ss[k] = ptTerm(s)
+	}
+	desc["samples_units_2^-30"] = samples
+	term := fmt.Sprintf("mkSC %s %s %s %s %s %s %s %s %s %s %s %s %s", cq.Bool(false), contourTerm(in[0]), cq.Z(int64(capI)), cq.Z(int64(joinI)),
+		inner, sq(hw+mF), "0%Z", "0%Z", sq(2*mF), sq(hw), "0%Z", pathTerm(rc), cq.List(ss))
+	o.Emit(out.Case{I: i, Fam: "fine-polyline/" + capNames[capI] + "/" + joinNames[joinI], Coq: term, Desc: desc})
+}
+
 func samplesAround(r *rng.R, c []ipt, closed bool, hw, limit float64) []ipt {
 	return samplesAroundM(r, c, closed, hw, limit, margin)
 }
@@ -394,6 +460,24 @@ func curvedStrokeCase(o *out.W, r *rng.R, i int) {
 	p.MoveTo(x, y)
 	fam := "curved"
 	nseg := r.Range(1, 2)
+	forceW := 0.0
+	if r.P(1, 8) {
+		// a rounded corner whose radius is smaller than half the stroke width, between two long lines: the inner offset of the arc
+		// passes through its centre (radius r - w/2 < 0)
+		fam += "-tightcorner"
+		nseg = 0
+		rad := rng.Pick(r, []float64{0.5, 0.75, 1, 1.25})
+		l1, l2 := g(5, 9), g(5, 9)
+		up := r.Bool()
+		sy := -1.0
+		if up {
+			sy = 1
+		}
+		p.LineTo(x+l1, y)
+		p.ArcTo(rad, rad, 0, false, up, x+l1+rad, y+sy*rad)
+		p.LineTo(x+l1+rad, y+sy*(rad+l2))
+		forceW = rng.Pick(r, []float64{3, 4})
+	}
 	for k := 0; k < nseg; k++ {
 		w, h := g(6, 30), g(2, 16)
 		if r.Bool() {
@@ -448,6 +532,9 @@ func curvedStrokeCase(o *out.W, r *rng.R, i int) {
 		in = append(in, q)
 	}
 	w := rng.Pick(r, []float64{0.5, 1, 1.5, 2, 3})
+	if forceW > 0 {
+		w = forceW
+	}
 	hw := w / 2
 	capI := 1 + r.Intn(2)
 	caps := []canvas.Capper{canvas.ButtCap, canvas.RoundCap, canvas.SquareCap}
@@ -475,8 +562,24 @@ func curvedStrokeCase(o *out.W, r *rng.R, i int) {
 	desc["samples_units_2^-30"] = samples
 	desc["ellipse_offset_error"], desc["sample_dist"] = ellipseOffsetError(p, hw), sampleDists(in, false, samples)
 	term := fmt.Sprintf("mkSC false %s %s 1%%Z %s %s 0%%Z %s %s %s 0%%Z %s %s", contourTerm(in), cq.Z(int64(capI)),
-		sq(hw-cmargin), sq(hw+cmargin), capZone, sq(2*cmargin), sq(hw), pathTerm(rc), cq.List(ss))
+		sq(hw-cmargin), sq(hw+cmargin), capZone, sq(2*cmargin), shortThreshold(p, hw), pathTerm(rc), cq.List(ss))
 	o.Emit(out.Case{I: i, Fam: fam + "/" + capNames[capI] + "/Round", Coq: term, Desc: desc})
+}
+
+// shortThreshold is the judge's threshold for "the path has a segment shorter than w/2" (the class of the known finding
+// wide-stroke-short-segments, which is about LINE segments).  The judge of the curved cases sees a dense sampling of the path, in
+// which every piece is short: the threshold is handed over only when the path itself has a line segment shorter than w/2.
+func shortThreshold(p *canvas.Path, hw float64) string {
+	segs, err := pd.Decode(p.Data())
+	if err != nil {
+		return "0%Z"
+	}
+	for _, s := range segs {
+		if (s.Cmd == 'L' || s.Cmd == 'Z') && math.Hypot(s.X-s.X0, s.Y-s.Y0) > 0 && math.Hypot(s.X-s.X0, s.Y-s.Y0) < hw {
+			return sq(hw)
+		}
+	}
+	return "0%Z"
 }
 
 func sign(x float64) float64 {
@@ -595,7 +698,7 @@ func closedCurvedStrokeCase(o *out.W, r *rng.R, i int) {
 	desc["samples_units_2^-30"] = samples
 	desc["ellipse_offset_error"], desc["sample_dist"] = ellipseOffsetError(p, hw), sampleDists(in, true, samples)
 	term := fmt.Sprintf("mkSC true %s %s 1%%Z %s %s 0%%Z 0%%Z %s %s 0%%Z %s %s", contourTerm(in), cq.Z(int64(capI)),
-		sq(hw-cmargin), sq(hw+cmargin), sq(2*cmargin), sq(hw), pathTerm(rc), cq.List(ss))
+		sq(hw-cmargin), sq(hw+cmargin), sq(2*cmargin), shortThreshold(p, hw), pathTerm(rc), cq.List(ss))
 	o.Emit(out.Case{I: i, Fam: "closed-curved-" + fam + "/" + capNames[capI] + "/Round", Coq: term, Desc: desc})
 }
 
